@@ -1636,3 +1636,104 @@ func runSetHoistsDeep(rr *RuleRun) {
 		rr.Violation("cty.SetVal/no-unmark", fd.Pos(), "SetVal does not unmark its members deeply: marks on members are neither moved to the set nor removed from the payload")
 	}
 }
+
+// ---------------------------------------------------------------------------
+// C07.conformance-collections-recurse, C07.placeholder-search-recurses
+
+func init() {
+	register(&Rule{
+		ID: "C07.conformance-collections-recurse", Prop: "C07", Floor: 3, Controls: 0,
+		Doc: "testConformance appends an error only where the branch conditions do not establish that 'given' and 'want' are collections of the same kind: for list/list, map/map and set/set the verdict comes from the recursion on the element types alone (an error reported for the pair as a whole compares the element types with optional-attribute annotations and placeholders still in them)",
+		Run: runConformanceCollectionsRecurse,
+	})
+	register(&Rule{
+		ID: "C07.placeholder-search-recurses", Prop: "C07", Also: []string{"C01", "C08"}, Floor: 3, Controls: 0,
+		Doc: "Type.HasDynamicTypes descends into every compound kind: under the branch condition for collections, for objects and for tuples there is a recursive HasDynamicTypes call on a member type (a test of the member against DynamicPseudoType alone misses placeholders nested one level deeper)",
+		Run: runPlaceholderSearchRecurses,
+	})
+}
+
+var collectionPreds = []string{"IsCollectionType", "IsListType", "IsMapType", "IsSetType"}
+
+func runConformanceCollectionsRecurse(rr *RuleRun) {
+	c := rr.Ctx
+	info := c.Info("cty")
+	fd := rr.MustDecl("cty", "testConformance")
+	if fd == nil {
+		return
+	}
+	given, want := info.Defs[paramIdent(fd, 0)], info.Defs[paramIdent(fd, 1)]
+	cf := c.CondFacts(fd.Body, info, nil)
+	inspectNoLit(fd.Body, func(n ast.Node) bool {
+		call, ok := n.(*ast.CallExpr)
+		if !ok || !isBuiltin(info, call, "append") || len(call.Args) < 2 {
+			return true
+		}
+		if sl, ok := info.TypeOf(call.Args[0]).Underlying().(*types.Slice); !ok || sl.Elem().String() != "error" {
+			return true
+		}
+		key := "cty.testConformance/append " + trunc(exprStr(call.Args[1]), 50)
+		g := cf.HoldsAt(call, func(cond ast.Expr, truth bool) bool { return truth && methodCond(info, cond, given, collectionPreds...) })
+		w := cf.HoldsAt(call, func(cond ast.Expr, truth bool) bool { return truth && methodCond(info, cond, want, collectionPreds...) })
+		if g && w {
+			rr.Violation(key, call.Pos(), "an error is reported for a pair of collection types as a whole (both 'given' and 'want' are established to be collections here): conformance of collections is decided by their element types alone, disregarding optional-attribute annotations and resolving placeholders — a whole-type comparison rejects types that conform")
+		} else {
+			rr.OK(key, call.Pos(), "not reached for a same-kind pair of collections")
+		}
+		return true
+	})
+}
+
+func runPlaceholderSearchRecurses(rr *RuleRun) {
+	c := rr.Ctx
+	info := c.Info("cty")
+	fd := rr.MustDecl("cty", "Type.HasDynamicTypes")
+	if fd == nil {
+		return
+	}
+	recv := info.Defs[fd.Recv.List[0].Names[0]]
+	cf := c.CondFacts(fd.Body, info, nil)
+	type kindReq struct {
+		name  string
+		preds []string
+	}
+	reqs := []kindReq{
+		{"collection", []string{"IsCollectionType", "IsListType", "IsMapType", "IsSetType"}},
+		{"object", []string{"IsObjectType"}},
+		{"tuple", []string{"IsTupleType"}},
+	}
+	var recCalls []*ast.CallExpr
+	inspectNoLit(fd.Body, func(n ast.Node) bool {
+		if call, ok := n.(*ast.CallExpr); ok && isCall(info, call, "cty.Type.HasDynamicTypes") {
+			recCalls = append(recCalls, call)
+		}
+		return true
+	})
+	for _, rq := range reqs {
+		key := "cty.Type.HasDynamicTypes/" + rq.name
+		// is the kind tested at all? (a collection may be handled per kind)
+		found := false
+		for _, call := range recCalls {
+			if cf.HoldsAt(call, func(cond ast.Expr, truth bool) bool { return truth && methodCond(info, cond, recv, rq.preds...) }) {
+				found = true
+				rr.OK(key, call.Pos(), "recursive call on a member type under the "+rq.name+" branch")
+				break
+			}
+		}
+		if !found {
+			// a dispatch the condition analysis does not read (a type switch on the implementation): not decided
+			typeSwitch := false
+			inspectNoLit(fd.Body, func(n ast.Node) bool {
+				if _, ok := n.(*ast.TypeSwitchStmt); ok {
+					typeSwitch = true
+				}
+				return true
+			})
+			if typeSwitch {
+				rr.Assumed(key, fd.Pos(), "the kind dispatch is a type switch, which this rule does not interpret")
+				continue
+			}
+			rr.Violation(key, fd.Pos(), fmt.Sprintf("no recursive HasDynamicTypes call is made under the branch condition for %s types: a placeholder nested deeper than a direct member of such a type is not found, so 'has dynamic types' answers false for a type that contains one", rq.name))
+		}
+	}
+}
